@@ -104,7 +104,7 @@ def _cert(acc, job, deadline):
     X = pd.DataFrame({"f": feat})
     sf = [mc.GROUP_NAMES[g] for g in groups]
     ratio = 0.8 if bk == "ratio" else 1
-    eps = 0.05
+    eps = 0.05 if job["seed"] % 3 else 0.0  # the boundary value 0 (exact parity) is a legitimate request
     vals = sorted(set(feat))
     H = [dict(zip(vals, lab)) for lab in itertools.product([0, 1], repeat=len(vals))]
     probe = mc.make_moment(name, bk, ratio if bk == "ratio" else eps, eps)
